@@ -552,10 +552,13 @@ def run_column_area(cases, stats):
     vio = []
     for i, c in enumerate(cases):
         p, f, w, mask, plus = c['p'], c['f'], c['w'], c['mask'], c['plus']
+        other = bool(c.get('other'))
         cells = {f'{get_column_letter(k)}1': 100 + k for k in range(1, 13)}
         cells.update({f'{get_column_letter(k)}2': 200 + k for k in range(1, 5)})
         area = f'{get_column_letter(f)}1:{get_column_letter(f + w - 1)}2'
         own = f'{get_column_letter(p)}3'
+        if other:
+            area = 'O!' + area       # the area lies on another sheet, whose row 3 is blank
         cells[own] = f'=COLUMN({area})' + ('+10' if plus else '')
         want = {a: v for a, v in cells.items() if a != own}
         want[own] = f + (10 if plus else 0)
@@ -564,7 +567,7 @@ def run_column_area(cases, stats):
                 a = f'{get_column_letter(p + 1 + k)}3'
                 cells[a] = want[a] = 700 + k
         for entry in (None, ('S', get_column_letter(p), '3')):
-            kind, text = D.translate([('S', cells)], entry=entry)
+            kind, text = D.translate([('S', cells), ('O', {f'{get_column_letter(k)}{r}': 900 + k for k in range(1, 8) for r in (1, 2)})], entry=entry)
             stats['transitions'] += 1
             cls = None
             if kind == 'TEXT':
@@ -642,7 +645,9 @@ def plan(tier, seed):
         {'name': 'address-literal-constant', 'cases': address_lit_cases(), 'runner': 'run_address_lit', 'chunk': 100},
         {'name': 'column-reference', 'cases': column_cases(), 'runner': 'run_column', 'chunk': 160},
         {'name': 'column-area', 'cases': [{'p': p_, 'f': f_, 'w': w_, 'mask': m_, 'plus': pl_} for p_ in range(1, 9) for f_ in range(1, 5)
-                                          for w_ in (2, 3) for m_ in range(4) for pl_ in (0, 1)], 'runner': 'run_column_area', 'chunk': 16},
+                                          for w_ in (2, 3) for m_ in range(4) for pl_ in (0, 1)] +
+                                         [{'p': p_, 'f': f_, 'w': w_, 'mask': m_, 'plus': 0, 'other': 1} for p_ in (1, 4, 8) for f_ in range(1, 5)
+                                          for w_ in (2, 3) for m_ in range(4)], 'runner': 'run_column_area', 'chunk': 16},
         {'name': 'column-own', 'cases': iter([{}, {'entry': ['S', 'AA', '3']}, {'entry': ['S', 'B', '2']}]), 'runner': 'run_column_own',
          'chunk': 1},
     ]
